@@ -90,6 +90,8 @@ mod wasm32_simd128;
 mod x86_avx2;
 mod x86_sse2;
 mod x86_ssse3;
+#[cfg(fast_tlsh_verif)]
+pub(crate) mod verif;
 
 #[cfg(all(test, feature = "tests-slow"))]
 mod fuzzer;
